@@ -21,6 +21,7 @@ import (
 // consuming calls: callee name suffix -> index of the result carrying the byte count
 var consumeCalls = map[string]int{
 	"io.ReadFull":                  0,
+	"io.ReadAtLeast":               0,
 	"(*bt.VarInt).ReadFrom":        0,
 	"(*bt.Input).readFrom":         0,
 	"(*bt.Input).ReadFrom":         0,
@@ -160,10 +161,15 @@ func ruleACC(c *Ctx) {
 		found := 0
 		for _, b := range fn.Blocks {
 			ret, ok := b.Instrs[len(b.Instrs)-1].(*ssa.Return)
-			if !ok || returnKinds(ret.Results[2]) != 1 {
+			if !ok || returnKinds(ret.Results[2])&1 == 0 || errorFromNonNil(pf, ret.Results[2], b) {
 				continue
 			}
 			found++
+			// a return that hands on an error variable: success is the case in which it is nil
+			var hyp []fact
+			if returnKinds(ret.Results[2]) != 1 {
+				hyp = []fact{{isnil: pf.get(ret.Results[2]).key, why: "success: the returned error is nil"}}
+			}
 			n := pf.linOf(pf.get(fn.Params[1]))
 			dataLen := pf.linOf(pf.mkLen(pf.get(ret.Results[0])))
 			for _, q := range []struct {
@@ -174,8 +180,8 @@ func ruleACC(c *Ctx) {
 				g := q.l.sub(q.r)
 				// "not ahead" first: once shown it is a fact at this return and may carry the other direction
 				// (n - read cannot wrap)
-				ok1 := pf.proveAt(b, pgoal{l: g.neg()}, nil, 0) &&
-					(pf.proveAt(b, pgoal{l: g}, nil, 0) || pf.proveAt(b, pgoal{l: g}, []fact{{l: g.neg(), why: "shown before: " + descLin(g.neg()) + " >= 0"}}, 0))
+				ok1 := pf.proveAt(b, pgoal{l: g.neg()}, hyp, 0) &&
+					(pf.proveAt(b, pgoal{l: g}, hyp, 0) || pf.proveAt(b, pgoal{l: g}, append([]fact{{l: g.neg(), why: "shown before: " + descLin(g.neg()) + " >= 0"}}, hyp...), 0))
 				c.Check(ok1, "ACC", "ACC-5/readBytes/"+strings.Fields(q.what)[1], ret.Pos(), "at the success return "+q.what,
 					"readBytes can succeed with "+q.bad+": bytes of the following field are taken or left")
 			}
@@ -437,4 +443,43 @@ func accValue(pf *pfunc, v ssa.Value) *lin {
 func isIOReader(t types.Type) bool {
 	n, ok := t.(*types.Named)
 	return ok && n.Obj().Pkg() != nil && n.Obj().Pkg().Path() == "io" && n.Obj().Name() == "Reader"
+}
+
+// errorFromNonNil: the returned error is the result of a module helper every return of which hands back
+// either a package-level error that is never nil or one of its parameters, and the arguments for those
+// parameters are known non-nil at the call (if err != nil { return ..., wrap(err) }): an error return.
+func errorFromNonNil(pf *pfunc, v ssa.Value, at *ssa.BasicBlock) bool {
+	call, ok := v.(*ssa.Call)
+	if !ok {
+		return false
+	}
+	sc := call.Call.StaticCallee()
+	if sc == nil || len(sc.Blocks) == 0 || sc.Signature.Results().Len() != 1 {
+		return false
+	}
+	fs := pf.factsAt(at)
+	for _, b := range sc.Blocks {
+		ret, ok := b.Instrs[len(b.Instrs)-1].(*ssa.Return)
+		if !ok {
+			continue
+		}
+		r := ret.Results[0]
+		if returnKinds(r) == 2 {
+			continue
+		}
+		p, isParam := r.(*ssa.Parameter)
+		if !isParam {
+			return false
+		}
+		idx := -1
+		for i, q := range sc.Params {
+			if q == p {
+				idx = i
+			}
+		}
+		if idx < 0 || idx >= len(call.Call.Args) || !pf.knownNonNil(call.Call.Args[idx], fs) {
+			return false
+		}
+	}
+	return true
 }
